@@ -63,6 +63,10 @@ type result struct {
 type violationRec struct {
 	Plan   map[string]any `json:"plan"`
 	Result result         `json:"result"`
+	// generation of the worker process that found it (for batch replays)
+	GenStart  int  `json:"-"`
+	GenStride int  `json:"-"`
+	GenFree   bool `json:"-"`
 }
 
 type sample struct {
@@ -300,6 +304,12 @@ type batchSpec struct {
 
 // runBatchOnce re-executes a batch of plans in one fresh process and returns its output and whether it died.
 func runBatchOnce(bin string, b batchSpec, timeout time.Duration) (string, bool) {
+	out, died, _ := runBatchSummary(bin, b, timeout)
+	return out, died
+}
+
+// runBatchSummary is runBatchOnce that also returns the worker's summary when it completed.
+func runBatchSummary(bin string, b batchSpec, timeout time.Duration) (string, bool, *summary) {
 	out := filepath.Join(work, "batch-replay.summary.json")
 	os.Remove(out)
 	args := []string{"-test.run", "^TestWorker$", "-test.timeout", "0", "-verif.mode=batch", "-verif.prop=" + prop, "-verif.tier=" + b.Tier,
@@ -315,7 +325,7 @@ func runBatchOnce(bin string, b batchSpec, timeout time.Duration) (string, bool)
 	cmd.Stdout = &buf
 	cmd.Stderr = &buf
 	if err := cmd.Start(); err != nil {
-		return err.Error(), false
+		return err.Error(), false, nil
 	}
 	done := make(chan error, 1)
 	go func() { done <- cmd.Wait() }()
@@ -324,15 +334,25 @@ func runBatchOnce(bin string, b batchSpec, timeout time.Duration) (string, bool)
 	case <-time.After(timeout):
 		cmd.Process.Kill()
 		<-done
-		return tailStr(buf.String(), 60), false
+		return tailStr(buf.String(), 60), false, nil
 	}
-	_, err := os.Stat(out)
-	return tailStr(buf.String(), 120), err != nil
+	sb, err := os.ReadFile(out)
+	if err != nil {
+		return tailStr(buf.String(), 120), true, nil
+	}
+	var sm summary
+	if unmarshal(sb, &sm) != nil {
+		return tailStr(buf.String(), 120), true, nil
+	}
+	return tailStr(buf.String(), 120), false, &sm
 }
 
-func (a *agg) merge(s *summary) {
+func (a *agg) merge(s *summary, genStart, genStride int, free bool) {
 	a.mu.Lock()
 	defer a.mu.Unlock()
+	for i := range s.Violations {
+		s.Violations[i].GenStart, s.Violations[i].GenStride, s.Violations[i].GenFree = genStart, genStride, free
+	}
 	a.runs += s.Runs
 	a.steps += s.Steps
 	a.simUs += s.SimUs
@@ -423,7 +443,7 @@ func runBatch(bin string, a *agg, budget time.Duration, free bool, workers int, 
 				if err == nil {
 					var s summary
 					if unmarshal(b, &s) == nil {
-						a.merge(&s)
+						a.merge(&s, next, workers, free)
 						next = s.NextIndex
 						os.Remove(journal)
 						os.Remove(out)
@@ -437,6 +457,9 @@ func runBatch(bin string, a *agg, budget time.Duration, free bool, workers int, 
 				}
 				idx := lastStarted(journal)
 				lb, _ := os.ReadFile(logf)
+				if strings.Contains(string(lb), "WATCHDOG: plan") {
+					kind = "watchdog"
+				}
 				a.mu.Lock()
 				a.crashes = append(a.crashes, crashRec{Index: idx, Stderr: tailStr(string(lb), 120), Kind: kind, Free: free, Start: next, Stride: workers})
 				ncr := len(a.crashes)
@@ -765,7 +788,17 @@ func replay(path string) int {
 			seed = rf.VerifSeed
 		}
 		bin := build(rf.Batch.Free)
-		out, died := runBatchOnce(bin, *rf.Batch, 1800*time.Second)
+		out, died, sm := runBatchSummary(bin, *rf.Batch, 1800*time.Second)
+		if !died && sm != nil {
+			for i := range sm.Violations {
+				for _, x := range sm.Violations[i].Result.Violations {
+					if x.Class == rf.Class {
+						fmt.Printf("reproduced (batch of %d plans in one process): %s: %s\nVIOLATION property=%s replay=%s\n", rf.Batch.Count, x.Class, x.Detail, prop, path)
+						return 1
+					}
+				}
+			}
+		}
 		if died {
 			cc := crashClass(out)
 			fmt.Println(tailStr(out, 40))
@@ -927,9 +960,6 @@ func check() int {
 		}
 		runBatch(raceBin, fa, raceBudget, true, rw, recycle, 0)
 	}
-	if a.runs == 0 {
-		fatal2("no run completed (see %s)", work)
-	}
 	// A run whose digest differs on re-execution is not believed (it is discarded from every count), but it
 	// cannot hide a violation: violations are only reported after they reproduced in a fresh process.
 	// Go's select among several ready cases is the one runtime choice the simulator cannot seed; plans avoid
@@ -947,14 +977,21 @@ func check() int {
 		free  bool
 		count int
 		batch *batchSpec
+		// worker generation that found it
+		genStart, genStride int
+		hasGen              bool
 	}
 	byClass := map[string]*finding{}
 	var order []string
 	trouble := 0
+	var curGen *violationRec
 	add := func(class string, plan map[string]any, res *result, crash string, free bool) {
 		f := byClass[class]
 		if f == nil {
 			f = &finding{class: class, plan: plan, res: res, crash: crash, free: free}
+			if curGen != nil {
+				f.genStart, f.genStride, f.hasGen = curGen.GenStart, curGen.GenStride, true
+			}
 			byClass[class] = f
 			order = append(order, class)
 		} else if idx(plan) < idx(f.plan) {
@@ -977,14 +1014,24 @@ func check() int {
 					r := v.Result
 					// put this class first
 					r.Violations = append([]violation{x}, r.Violations...)
+					curGen = v
 					add(x.Class, v.Plan, &r, "", src == fa)
+					curGen = nil
 				}
 			}
 		}
 	}
 	// crashes: re-run the suspected plan alone
+	freeHangs := 0
 	for _, src := range []*agg{a, fa} {
 		for _, c := range src.crashes {
+			if c.Kind == "watchdog" && c.Free {
+				// with real mutexes a goroutine waiting on a lock is not durably blocked: a deadlock of the system
+				// under test (which controlled mode reports with its wait-for picture) shows here only as a bubble
+				// that never becomes quiescent. Counted, not judged.
+				freeHangs++
+				continue
+			}
 			if c.Index < 0 {
 				trouble++
 				fmt.Fprintf(os.Stderr, "worker died before starting a plan:\n%s\n", c.Stderr)
@@ -1004,8 +1051,12 @@ func check() int {
 			if c.Free {
 				tries = 10
 			}
+			to := 300 * time.Second
+			if c.Kind == "watchdog" {
+				tries, to = 1, 150*time.Second
+			}
 			for t := 0; t < tries && !reproduced; t++ {
-				r, stderr, err := runPlan(b, pf, 1, c.Free, 300*time.Second)
+				r, stderr, err := runPlan(b, pf, 1, c.Free, to)
 				if err != nil && err.Error() != "watchdog" {
 					var plan map[string]any
 					pb, _ := os.ReadFile(pf)
@@ -1047,6 +1098,9 @@ func check() int {
 			}
 		}
 	}
+	if a.runs == 0 && len(order) == 0 {
+		fatal2("no run completed and nothing reproduced (see %s)", work)
+	}
 	sort.Strings(order)
 	// one root cause often shows under several class signatures; report the first maxReported in full
 	const maxReported = 6
@@ -1059,11 +1113,16 @@ func check() int {
 				keep = append(keep, c)
 			}
 		}
+		for _, c := range order { // crashes reproduce by themselves: keep them
+			if len(keep) < maxReported && matchKnown(known, c) == nil && strings.HasPrefix(c, "crash|") {
+				keep = append(keep, c)
+			}
+		}
 		for _, c := range order {
 			if len(keep) >= maxReported {
 				break
 			}
-			if matchKnown(known, c) == nil {
+			if matchKnown(known, c) == nil && !strings.HasPrefix(c, "crash|") {
 				keep = append(keep, c)
 			}
 		}
@@ -1145,6 +1204,9 @@ func check() int {
 		} else if !confirm(plan) {
 			if minimised && confirm(f.plan) {
 				rf.Plan, rf.Minimised = f.plan, false
+			} else if spec, ok := batchConfirm(b, f.hasGen, f.genStart, f.genStride, idx(f.plan), f.free, class); ok {
+				// the violation depends on what earlier runs left in the process (a pool or cache of the library)
+				rf.Plan, rf.Minimised, rf.Batch = f.plan, false, spec
 			} else {
 				trouble++
 				fmt.Fprintf(os.Stderr, "violation class %q (plan %d) did not reproduce in a fresh process\n", class, idx(f.plan))
@@ -1172,6 +1234,9 @@ func check() int {
 		lines = append(lines, fmt.Sprintf("violation class=%s runs=%d: %s", class, f.count, detail))
 		lines = append(lines, fmt.Sprintf("VIOLATION property=%s replay=%s", prop, path))
 	}
+	if freeHangs > 0 {
+		fa.fired["free-running-bubble-never-quiescent"] += freeHangs
+	}
 	writeEvidence(a, fa, nViol, len(order))
 	wall := time.Since(tStart).Seconds()
 	fmt.Printf("%s %s seed=%d: %d controlled runs (%d non-trivial, %d distinct digests), %d free-running race runs, %.0f simulated s, %.1f s wall, %d violation classes\n",
@@ -1183,6 +1248,29 @@ func check() int {
 		fatal2("%d harness problem(s), see above", trouble)
 	}
 	return exit
+}
+
+// batchConfirm re-executes the worker generation that found a violation, up to the violating plan, in one fresh
+// process and tells whether the class shows again (as a violation of that batch or as a crash of that class).
+func batchConfirm(bin string, hasGen bool, start, stride, index int, free bool, class string) (*batchSpec, bool) {
+	if !hasGen || stride <= 0 || index < start {
+		return nil, false
+	}
+	spec := &batchSpec{Start: start, Stride: stride, Count: (index-start)/stride + 1, Free: free, Tier: tier}
+	out, died, sm := runBatchSummary(bin, *spec, 900*time.Second)
+	if died {
+		return spec, crashClass(out) == class
+	}
+	if sm != nil {
+		for i := range sm.Violations {
+			for _, x := range sm.Violations[i].Result.Violations {
+				if x.Class == class {
+					return spec, true
+				}
+			}
+		}
+	}
+	return nil, false
 }
 
 func firstLine(s string) string {
